@@ -685,3 +685,103 @@ func runTwoBlocked(sc *Scenario, out *Out) {
 		}
 	}
 }
+
+// runFinalise: the torrent's own finalisation path (handleEvent(TorData) ->
+// finalisePiece -> Pieces.Finalise -> Have) with a consumer waiting.  The last
+// block of a piece is reported twice (a duplicate block, or a request pass that
+// finds the piece full), first for corrupt data, then for good data.
+// C10: the consumer is woken when, and only when, the piece has been verified.
+func runFinalise(sc *Scenario, out *Out) {
+	viol := func(key, what string) {
+		out.Violations = append(out.Violations, Viol{"C10", key, what, 0})
+	}
+	const ps = 32768
+	seed := uint64(sc.ID) + 291
+	t, err := mktor.New(mktor.Spec{Name: fmt.Sprintf("fin-%d", sc.ID), PieceLen: ps, Length: 4*ps - 700, Seed: seed}, "")
+	if err != nil {
+		out.Note = err.Error()
+		return
+	}
+	ctx, cancel := context.WithCancel(context.Background())
+	defer cancel()
+	t, err = tor.AddTorrent(ctx, t)
+	if err != nil {
+		out.Note = err.Error()
+		return
+	}
+	defer func() {
+		k, c2 := context.WithTimeout(context.Background(), 5*time.Second)
+		t.Kill(k)
+		c2()
+	}()
+	p := 1 + sc.ID%3
+	plen := ps
+	if p == 3 {
+		plen = ps - 700
+	}
+	dups := 2 + sc.ID%2
+	deliver := func(corrupt bool) {
+		last := 0
+		for b := 0; b < plen; b += 16384 {
+			n := min(16384, plen-b)
+			data := content.Range(seed, int64(p*ps+b), n)
+			if corrupt && b == 0 {
+				data[7] ^= 0x55
+			}
+			t.Pieces.AddData(uint32(p), uint32(b), data, 1)
+			last = b
+		}
+		// what the peer that stored the last block tells the torrent - more than once
+		for k := 0; k < dups; k++ {
+			t.Event <- peer.TorData{Index: uint32(p), Begin: uint32(last), Length: uint32(min(16384, plen-last)), Complete: true}
+		}
+	}
+	settle := func() {
+		// every finalisation started by the loop has ended, and what it reported has been handled
+		for n := 0; n < 400; n++ {
+			t.GetStats()
+			_, _, pcs := t.Pieces.VerifSnapshot()
+			hashing := false
+			for _, pc := range pcs {
+				if pc.State == 2 {
+					hashing = true
+				}
+			}
+			if !hashing && n > 2 {
+				break
+			}
+			time.Sleep(5 * time.Millisecond)
+		}
+		time.Sleep(50 * time.Millisecond)
+		t.GetStats()
+		t.GetStats()
+	}
+	_, ch, err := t.Request(uint32(p), 1, true, true)
+	if err != nil || ch == nil {
+		out.Note = fmt.Sprintf("Request: %v (channel %v)", err, ch != nil)
+		return
+	}
+	deliver(true)
+	settle()
+	select {
+	case <-ch:
+		if !t.Pieces.Complete(uint32(p)) {
+			viol("woken-unverified", fmt.Sprintf("a consumer waiting for piece %d was woken although the data delivered failed verification and the piece is not there (the last block was reported %d times)", p, dups))
+			return
+		}
+	default:
+	}
+	deliver(false)
+	select {
+	case <-ch:
+		if !t.Pieces.Complete(uint32(p)) {
+			settle()
+			if !t.Pieces.Complete(uint32(p)) {
+				viol("woken-unverified", fmt.Sprintf("a consumer waiting for piece %d was woken before the piece was verified", p))
+			}
+		}
+	case <-time.After(8 * time.Second):
+		viol("lost-wakeup", fmt.Sprintf("a consumer is still waiting 8 s after good data for piece %d was delivered and its last block reported %d times", p, dups))
+	}
+	settle()
+}
